@@ -153,6 +153,34 @@ def run(tier):
                                    what='evaluation is invariant under normalisation')
                 except NotImplementedError:
                     pass
+    # closed loops on self-adjoint wires (Dim, PRO): a cap closed by a cup on the same two wires is the dimension of the
+    # wire, not a snake; normalisation must leave the value alone (with and without boxes in between)
+    with suite.guard('normalisation of closed loops', fq + ['rewriting.snake_removal']):
+        d2 = Dim(2)
+        tsym = lambda nm, dom, cod: tensor.Box(nm, dom, cod, [sympy.Symbol('%s%d' % (nm, k), real=True) for k in range(prod(dom) * prod(cod))])
+        th, tf, tg = tsym('h', d2, d2), tsym('f', d2, d2 @ d2), tsym('g', d2 @ d2, d2)
+        Fid = tensor.Functor(ob=lambda t: t, ar=lambda b: b.array)
+        tI = tensor.Id
+        loops = {
+            'h @ cap >> h @ cup >> h': th @ Cap(d2, d2) >> th @ Cup(d2, d2) >> th,
+            'cap @ h >> cup @ h': Cap(d2, d2) @ th >> Cup(d2, d2) @ th,
+            'loop around a box': tf @ tI(d2) >> tI(d2 @ d2) @ Cap(d2, d2) @ tI(d2) >> tI(d2) @ th @ tI(d2 @ d2 @ d2)
+                                 >> tI(d2 @ d2) @ Cup(d2, d2) @ tI(d2) >> tg @ th,
+            'box on the loop': th @ Cap(d2, d2) >> tI(d2) @ th @ tI(d2) >> th @ Cup(d2, d2)}
+        lsyms = tuple(sorted({v for b in (th, tf, tg) for v in b.free_symbols}, key=str))
+        for nm, dg in loops.items():
+            before = Fid(dg)
+            after = Fid(dg.normal_form())
+            suite.fact('eval.normal_form.loop.type[%s]' % nm, (after.dom, after.cod) == (before.dom, before.cod), functions=fq + ['rewriting.snake_removal'])
+            suite.identity('eval.normal_form.loop[%s]' % nm, entries(mat(after)), entries(mat(before)), extra=lsyms,
+                           functions=fq + ['rewriting.snake_removal'], what='a closed loop is not a snake: evaluation is invariant under normalisation')
+        p1 = rigid.PRO(1)
+        pa = Box('a', p1, p1)
+        Fp = tensor.Functor({p1: 2}, {pa: [sympy.Symbol('a%d' % k, real=True) for k in range(4)]})
+        circle = pa @ Cap(p1, p1) >> pa @ Cup(p1, p1) >> pa
+        suite.identity('eval.normal_form.loop[PRO(1)]', entries(mat(Fp(circle.normal_form()))), entries(mat(Fp(circle))),
+                       extra=tuple(sympy.Symbol('a%d' % k, real=True) for k in range(4)), functions=fq + ['rewriting.snake_removal'],
+                       what='a closed loop on a PRO wire: evaluation is invariant under normalisation')
     # objects sent to Dims with 0 or 2 factors: the swap special case must move blocks of axes of different lengths
     global DIMS
     saved = DIMS
